@@ -21,6 +21,9 @@ structure PoolH where
   parallelize_prior : Bool
   original_log_likelihood : Nat := 0
   original_log_prior : Nat := 0
+  /-- the environment: does `pool.close()` / `pool.join()` raise (a broken pool) -/
+  close_raises : Bool := false
+  join_raises : Bool := false
   deriving DecidableEq, Repr
 
 end Gen
